@@ -307,6 +307,22 @@ func HarnessC07Float(a []int) {
 		diff := float64(y) - float64(x)
 		tol := c07Step(main, sub, enc) * (1 + 1.0/1024)
 		verifAssert("C07.accuracy", diff <= tol && -diff <= tol)
+		if main == 9 && len(a) > 2 && a[2] == 2 {
+			// (instances with a[2] = 2) the step "at that magnitude" taken from the value itself, not from the exponent the
+			// encoder happened to choose: the smallest exponent whose mantissa range holds |x|
+			ax := float64(x) * 100
+			if ax < 0 {
+				ax = -ax
+			}
+			ref := 0.01
+			for e := 1; e <= 15; e++ {
+				if ax > 2047*float64(uint(1)<<uint(e-1)) {
+					ref = 0.01 * float64(uint(1)<<uint(e))
+				}
+			}
+			ref *= 1 + 1.0/1024
+			verifAssert("C07.accuracy_at_magnitude", diff <= ref && -diff <= ref)
+		}
 	}
 	verifObserve("y", y)
 }
